@@ -15,10 +15,12 @@
 (* One named predicate per compared aspect and property; ReportSpec prints   *)
 (* every failing predicate (name, line, case) instead of stopping.           *)
 (*                                                                         *)
-(* Reads that fall in a class for which the implementation is known or       *)
-(* suspected to deviate are judged by the SAME strict comparison but under    *)
-(* their own predicate name (the class is the signature), so that the        *)
-(* general predicates stay strict:                                           *)
+(* Reads that fall in a class for which the implementation WAS found to      *)
+(* deviate (each repaired since by a "fix:" commit of the repository, see    *)
+(* known-findings.txt) are judged by the SAME strict comparison but under    *)
+(* their own predicate name (the class is the signature of the finding), so  *)
+(* that a regression is reported under that signature and the general        *)
+(* predicates stay strict:                                                   *)
 (*   Step_C17_TxPitMixedFlags         transactions as of t, ACCOUNT_ and      *)
 (*                                    TRANSACTION_METADATA_HISTORY differ     *)
 (*   Step_C17_AcctPitAfterDelete      account metadata as of t while an       *)
